@@ -32,7 +32,7 @@ ASSUMPTIONS = [
 ]
 BOUNDS = {
     "quick": "(a) n_node<=5,n_face<=2,sizes 3..5; n_node<=4,n_face=3; (b) deviations<=1, subsets of meshes <=7 faces; (c) 720 orders x 3 meshes; (d) 6 meshes x 3 edge orders",
-    "thorough": "(a) plus n_node=6,n_face=2,sizes 3..6 and n_node=5,n_face=3,sizes 3..4; (b) deviations<=2 (meshes <= 9 faces), subsets of meshes <=9 faces; (c) 720 orders x 6 meshes; (d) 12 meshes x 3 edge orders",
+    "thorough": "(a) plus n_node=6,n_face=2,sizes 3..6 and n_node=5,n_face=3,triangles; (b) deviations<=2 (meshes <= 9 faces), subsets of meshes <=9 faces; (c) 720 orders x 6 meshes; (d) 12 meshes x 3 edge orders",
 }
 OBS = ["node_face_connectivity", "edge_face_connectivity", "face_face_connectivity", "hole_edge_indices", "n_max_node_faces", "n_max_face_faces"]
 
@@ -44,7 +44,7 @@ def cases(tier):
     out += scope_blocks(4, 3, (3, 4), (4,), 48)
     if tier == "thorough":
         out += scope_blocks(6, 2, (3, 4, 5, 6), (6,), 96)
-        out += scope_blocks(5, 3, (3, 4), (4,), 180)
+        out += scope_blocks(5, 3, (3,), (3,), 60)  # all triples of triangles over 5 nodes (the 3..4 mix over 5 nodes is 5.8M triples: too slow)
     cat = meshes.catalog()
     k = 1 if tier == "quick" else 2
     for name, m in cat.items():
